@@ -245,64 +245,82 @@ example :
 /-! ## generalheap / PriorityQueue / timed.PriorityQueue — a priority multiset with handles
 
 One model (`Heap.St`: the array of `generalheap.Heap`, the elements' `index` fields, `container/heap`'s
-`up`/`down`) serves the three of them; `desc` ranges over ascending and descending. -/
+`up`/`down`) serves the three of them.  `cmp : Heap.Cmp` ranges over **every legal `CompareTo`** of the
+key type parameter — any integer-valued function whose sign is a total preorder (`Heap.Cmp.anti`,
+`Heap.Cmp.trans`), whatever its magnitudes: ascending / descending `-1/0/1` (`Cmp.asc`, `Cmp.dsc`, the
+comparators of timed.PriorityQueue), `a - b` (`Cmp.diff`), `MinInt64 / MaxInt64` (`Cmp.ofSign`), their
+reversals (`Cmp.flip`).  The model looks at a result only through `< 0` (`Less`) and `≤ 0` (`PopUntil`). -/
 
-/-- **Heap order and "handle index = position"** hold after every history, ascending or
-descending: no element sorts before its parent; the `index` field of the element in slot `i` is `i`;
+/-- **Heap order and "handle index = position"** hold after every history, for every legal comparator: no element sorts before its parent; the `index` field of the element in slot `i` is `i`;
 the `index` field of every element that left the heap is `-1`. -/
-theorem C12_heap_invariant (desc : Bool) (ops : List Heap.Op) :
-    let s := Heap.final (Heap.init desc) ops
+theorem C12_heap_invariant (cmp : Heap.Cmp) (ops : List Heap.Op) :
+    let s := Heap.final (Heap.init cmp) ops
     (∀ i, 0 < i → i < s.arr.length → Heap.less s i ((i - 1) / 2) = false) ∧
     (∀ i, i < s.arr.length → s.idx.getD (s.at i).id (-1) = (i : Int)) ∧
     (∀ h, (∀ e ∈ s.arr, e.id ≠ h) → s.idx.getD h (-1) = -1) := by
   intro s
-  have h : Heap.Inv s := Heap.inv_final desc ops
+  have h : Heap.Inv s := Heap.inv_final cmp ops
   exact ⟨h.2, fun i hi => (h.1.1 i hi).2, fun k hk => h.1.absent (fun i hi => hk _ (Heap.at_mem s i hi))⟩
 
-/-- **Pop / Peek return a best element** (the minimum; the maximum for descending) of the multiset
+/-- **Pop / Peek return a best element** (nothing sorts strictly before it in the comparator's order) of the multiset
 held after any history, `Pop` removes exactly that element, and both answer nothing iff empty. -/
-theorem C12_heap_pop_is_best (desc : Bool) (ops : List Heap.Op) :
-    let s := Heap.final (Heap.init desc) ops
+theorem C12_heap_pop_is_best (cmp : Heap.Cmp) (ops : List Heap.Op) :
+    let s := Heap.final (Heap.init cmp) ops
     ((Heap.pop s).2 = none ↔ s.arr = []) ∧ (Heap.pop s).2 = Heap.peek s ∧
     (s.arr ≠ [] → ∃ e, (Heap.pop s).2 = some e ∧ e ∈ s.arr ∧
-      (∀ x ∈ s.arr, Heap.lessK s.desc x.key e.key = false) ∧ s.arr.Perm (e :: (Heap.pop s).1.arr)) := by
+      (∀ x ∈ s.arr, Heap.lessK s.cmp x.key e.key = false) ∧ s.arr.Perm (e :: (Heap.pop s).1.arr)) := by
   intro s
-  have h : Heap.Inv s := Heap.inv_final desc ops
+  have h : Heap.Inv s := Heap.inv_final cmp ops
   exact ⟨Heap.pop_none_iff s, Heap.pop_eq_peek s, Heap.pop_spec s h.2⟩
 
 /-- **Removal handles are idempotent and exact**: after any history, calling the handle of the
 `h`-th push removes exactly that element if it is still queued and nothing otherwise, and calling it
 again changes nothing. -/
-theorem C12_heap_remove_idempotent (desc : Bool) (ops : List Heap.Op) (h : Nat) :
-    let s := Heap.final (Heap.init desc) ops
+theorem C12_heap_remove_idempotent (cmp : Heap.Cmp) (ops : List Heap.Op) (h : Nat) :
+    let s := Heap.final (Heap.init cmp) ops
     Heap.removeHandle (Heap.removeHandle s h) h = Heap.removeHandle s h ∧
     ((∃ e, e ∈ s.arr ∧ e.id = h ∧ s.arr.Perm (e :: (Heap.removeHandle s h).arr)) ∨
      ((∀ e ∈ s.arr, e.id ≠ h) ∧ Heap.removeHandle s h = s)) := by
   intro s
-  have hi : Heap.Inv s := Heap.inv_final desc ops
+  have hi : Heap.Inv s := Heap.inv_final cmp ops
   exact ⟨Heap.removeHandle_idem s h hi.1, Heap.removeHandle_spec s h hi.1⟩
 
 /-- **PopAll / PopUntil pop in priority order**: `PopAll` returns the whole multiset sorted and
 empties the queue; `PopUntil(p)` returns, sorted, exactly the elements whose priority compares `≤ p`
 and leaves the others. -/
-theorem C12_heap_pop_in_priority_order (desc : Bool) (ops : List Heap.Op) (p : Int) :
-    let s := Heap.final (Heap.init desc) ops
-    ((Heap.popAll s).2.Perm s.arr ∧ (Heap.popAll s).1.arr = [] ∧ Heap.Sorted s.desc (Heap.popAll s).2) ∧
-    (((Heap.popUntil s p).2 ++ (Heap.popUntil s p).1.arr).Perm s.arr ∧ Heap.Sorted s.desc (Heap.popUntil s p).2 ∧
-      (∀ e ∈ (Heap.popUntil s p).2, Heap.leK s.desc e.key p = true) ∧
-      (∀ x ∈ (Heap.popUntil s p).1.arr, Heap.leK s.desc x.key p = false)) := by
+theorem C12_heap_pop_in_priority_order (cmp : Heap.Cmp) (ops : List Heap.Op) (p : Int) :
+    let s := Heap.final (Heap.init cmp) ops
+    ((Heap.popAll s).2.Perm s.arr ∧ (Heap.popAll s).1.arr = [] ∧ Heap.Sorted s.cmp (Heap.popAll s).2) ∧
+    (((Heap.popUntil s p).2 ++ (Heap.popUntil s p).1.arr).Perm s.arr ∧ Heap.Sorted s.cmp (Heap.popUntil s p).2 ∧
+      (∀ e ∈ (Heap.popUntil s p).2, Heap.leK s.cmp e.key p = true) ∧
+      (∀ x ∈ (Heap.popUntil s p).1.arr, Heap.leK s.cmp x.key p = false)) := by
   intro s
-  have h : Heap.Inv s := Heap.inv_final desc ops
+  have h : Heap.Inv s := Heap.inv_final cmp ops
   exact ⟨Heap.popAll_spec s h.2, Heap.popUntil_spec s p h.2⟩
 
-/-- **The array heap ≡ priority multiset**: every step of every history, ascending or descending,
+/-- **The array heap ≡ priority multiset**: every step of every history, for every legal comparator,
 is a step the abstract model `Heap.specOk` allows (abstraction: the array read as a multiset, the
 allocation counter as the next handle): `Push` adds the element under a fresh handle, a handle
 removes its own element or nothing, `Peek`/`Pop` answer a best element, `PopUntil`/`PopAll` answer in
 priority order, `Size`/`IsEmpty` count the multiset. -/
-theorem C12_heap_refines_priority_multiset (desc : Bool) (ops : List Heap.Op) :
-    Heap.AllowedRun (Heap.init desc) ops :=
-  Heap.run_allowed _ (Heap.inv_init desc) ops
+theorem C12_heap_refines_priority_multiset (cmp : Heap.Cmp) (ops : List Heap.Op) :
+    Heap.AllowedRun (Heap.init cmp) ops :=
+  Heap.run_allowed _ (Heap.inv_init cmp) ops
+
+/-- The comparators are not vacuous and differ in everything but the sign: the same pair of keys
+answers `-1`, `-40`, `MinInt64`, `-3`; reversed `1`, `40`, `MaxInt64`, `5`. -/
+example : Heap.Cmp.asc.f 10 50 = -1 ∧ Heap.Cmp.diff.f 10 50 = -40 ∧ Heap.Cmp.dsc.f 10 50 = 1 ∧
+    Heap.Cmp.diff.flip.f 10 50 = 40 ∧
+    (Heap.Cmp.ofSign (-9223372036854775808) 9223372036854775807 (by decide) (by decide)).f 10 50
+      = -9223372036854775808 ∧
+    (Heap.Cmp.ofSign (-3) 5 (by decide) (by decide)).flip.f 10 50 = 5 := by decide
+
+-- The history of seeded change r6-1 under the `a - b` comparator: popped in priority order
+-- (a `Less` that tests `CompareTo == -1` leaves 50 at the root).
+unseal Heap.up Heap.down in
+example : (Heap.popAll (Heap.final (Heap.init Heap.Cmp.diff)
+    [.push 50 50, .push 10 10, .push 40 40, .push 20 20, .push 30 30, .push 0 0])).2.map (·.val)
+      = [0, 10, 20, 30, 40, 50] := by decide
 
 /-- Non-vacuity: a concrete three-element heap satisfies the invariant; it is what three pushes
 produce (`Proofs/C12aHeap.lean` also runs a double removal and a removal of a popped handle). -/
